@@ -839,7 +839,13 @@ fn gen_glyph(rng: &mut Rng, bc: bool, idx: usize) -> PGlyph {
     let ncont = rng.range(1, 3) as usize;
     let mut pts = vec![];
     let mut ends = vec![];
+    // every sixth glyph lives on a coarse lattice: equal coordinates (coincident references of IUP / IP,
+    // zero-length lines of SPVTL / ISECT, equal original positions) are the rule there, not the exception
+    let lattice = idx % 6 == 3;
     let coord = |rng: &mut Rng| -> i16 {
+        if lattice {
+            return *rng.pick(&[0i16, 0, 128, 128, 256, 320]);
+        }
         match mag {
             0 => rng.range(-200, 400) as i16,
             1 => rng.range(-2000, 3000) as i16,
@@ -865,6 +871,31 @@ fn gen_glyph(rng: &mut Rng, bc: bool, idx: usize) -> PGlyph {
         g.iupx = true;
         g.iupy = true;
         g.kinds.push("early-iup");
+    }
+    // a third of the programs first give some twilight points a position (SCFS in the twilight zone sets the
+    // original position too), so that mixed-zone measurements and moves (MD, MDRP, MIRP, IP, SHP, ISECT,
+    // SPVTL … with one zone pointer at the twilight zone) see non-trivial twilight coordinates
+    if !g.blocked() && g.rng.chance(1, 3) {
+        g.push(0);
+        g.op(SZP2);
+        let k = g.rng.range(2, 5) as i32;
+        for t in 0..k {
+            let t = if g.rng.chance(1, 4) { g.rng.below((g.n as u64).min(N_TWI as u64)) as i32 } else { t };
+            for x in [true, false] {
+                if x && g.bc {
+                    continue;
+                }
+                g.op(if x { SVTCA_X } else { SVTCA_Y });
+                let v = g.dist();
+                g.push(t);
+                g.push(v);
+                g.op(SCFS);
+            }
+        }
+        g.push(1);
+        g.op(SZP2);
+        g.op(SVTCA_X);
+        g.kinds.push("twilight-init");
     }
     for _ in 0..steps {
         g.action();
